@@ -144,6 +144,8 @@ func (n *RaftNode) AddBulk(bulk [][]byte) ([]*balloon.Snapshot, error) {
 // QueryDigestMembershipConsistency acts as a passthrough when an event digest is given to
 // request a membership proof against a certain balloon version.
 func (n *RaftNode) QueryDigestMembershipConsistency(keyDigest hashing.Digest, version uint64) (*balloon.MembershipProof, error) {
+	n.fsmMu.RLock()
+	defer n.fsmMu.RUnlock()
 	n.metrics.DigestMembershipQueries.Inc()
 	return n.balloon.QueryDigestMembershipConsistency(keyDigest, version)
 }
@@ -151,6 +153,8 @@ func (n *RaftNode) QueryDigestMembershipConsistency(keyDigest hashing.Digest, ve
 // QueryMembershipConsistency acts as a passthrough when an event is given to request a
 // membership proof against a certain balloon version.
 func (n *RaftNode) QueryMembershipConsistency(event []byte, version uint64) (*balloon.MembershipProof, error) {
+	n.fsmMu.RLock()
+	defer n.fsmMu.RUnlock()
 	n.metrics.MembershipQueries.Inc()
 	return n.balloon.QueryMembershipConsistency(event, version)
 }
@@ -158,6 +162,8 @@ func (n *RaftNode) QueryMembershipConsistency(event []byte, version uint64) (*ba
 // QueryDigestMembership acts as a passthrough when an event digest is given to request a
 // membership proof against the last balloon version.
 func (n *RaftNode) QueryDigestMembership(keyDigest hashing.Digest) (*balloon.MembershipProof, error) {
+	n.fsmMu.RLock()
+	defer n.fsmMu.RUnlock()
 	n.metrics.DigestMembershipQueries.Inc()
 	return n.balloon.QueryDigestMembership(keyDigest)
 }
@@ -165,12 +171,16 @@ func (n *RaftNode) QueryDigestMembership(keyDigest hashing.Digest) (*balloon.Mem
 // QueryMembership acts as a passthrough when an event is given to request a membership proof
 // against the last balloon version.
 func (n *RaftNode) QueryMembership(event []byte) (*balloon.MembershipProof, error) {
+	n.fsmMu.RLock()
+	defer n.fsmMu.RUnlock()
 	n.metrics.MembershipQueries.Inc()
 	return n.balloon.QueryMembership(event)
 }
 
 // QueryConsistency acts as a passthrough when requesting an incremental proof.
 func (n *RaftNode) QueryConsistency(start, end uint64) (*balloon.IncrementalProof, error) {
+	n.fsmMu.RLock()
+	defer n.fsmMu.RUnlock()
 	n.metrics.IncrementalQueries.Inc()
 	return n.balloon.QueryConsistency(start, end)
 }
@@ -239,6 +249,9 @@ func (n *RaftNode) Restore(rc io.ReadCloser) error {
 		return err
 	}
 
+	n.fsmMu.Lock()
+	defer n.fsmMu.Unlock()
+
 	if n.raft != nil { // we are not restoring on startup
 
 		// we make a remote call to fetch the snapshot
@@ -268,6 +281,9 @@ func (n *RaftNode) Restore(rc io.ReadCloser) error {
 }
 
 func (n *RaftNode) applyAdd(hashes []hashing.Digest, state *fsmState) *fsmResponse {
+
+	n.fsmMu.Lock()
+	defer n.fsmMu.Unlock()
 
 	resp := new(fsmResponse)
 	snapshotBulk, mutations, err := n.balloon.AddBulk(hashes)
